@@ -597,10 +597,14 @@ const (
 	azReadViolation // anything else: the case stops
 )
 
+// azQuiet is the quiet zone (in modules) of the renderings made by readImage: 4 by default; the
+// 2-px family also renders with none and with one module (the standard requires no quiet zone).
+var azQuiet = 4
+
 // readImage renders m and reads it; anything but azReadOK means a violation was recorded.
 func (a *azSym) readImage(r *fw.Rec, m [][]bool, d *azDamage, scale, rot int) int {
 	s := a.sym.Spec
-	res, err := azReadImage(azRender(m, scale, 4, rot))
+	res, err := azReadImage(azRender(m, scale, azQuiet, rot))
 	r.Evals(1)
 	if scale == 2 {
 		if s.Compact {
@@ -617,7 +621,7 @@ func (a *azSym) readImage(r *fw.Rec, m [][]bool, d *azDamage, scale, rot int) in
 		cls = "damaged"
 		d.addTo(info)
 	}
-	what := fmt.Sprintf("%s %s symbol, %d layers (%dx%d modules, %d data + %d check codewords), at %d px/module, rotated %d deg, 4-module quiet zone", cls, azKindOf(s), s.Layers, s.Size(), s.Size(), a.sym.DataWords, a.sym.CheckWords(), scale, rot*90)
+	what := fmt.Sprintf("%s %s symbol, %d layers (%dx%d modules, %d data + %d check codewords), at %d px/module, rotated %d deg, %d-module quiet zone", cls, azKindOf(s), s.Layers, s.Size(), s.Size(), a.sym.DataWords, a.sym.CheckWords(), scale, rot*90, azQuiet)
 	if err != nil {
 		kind := azErrKind(err)
 		if kind == "notfound" {
@@ -626,7 +630,7 @@ func (a *azSym) readImage(r *fw.Rec, m [][]bool, d *azDamage, scale, rot int) in
 			if s.Compact && scale == 2 && d == nil {
 				// the recorded open finding: only if the same matrix decodes and the same symbol reads at 3 px/module
 				mt, merr := azDecodeMatrix(m, a.sym, false)
-				r3, err3 := azReadImage(azRender(m, 3, 4, rot))
+				r3, err3 := azReadImage(azRender(m, 3, azQuiet, rot))
 				r.Evals(2)
 				if merr == nil && mt == a.want && err3 == nil && r3.GetText() == a.want {
 					r.Violation("not-located", "aztec.reader:compact-2px-notfound", fmt.Sprintf("AztecReader.Decode did not locate a %s (%v); Decoder.Decode of the same matrix and the reader at 3 px/module both return the text", what, azInnermost(err)), info)
@@ -704,12 +708,16 @@ func c11TwoPx(r *fw.Rec, s azref.Spec, symbols int) {
 			continue
 		}
 		h := hash64s("2px|" + azSpecName(s) + "|" + string(a.text))
+		azQuiet = []int{4, 0, 1, 4}[i%4]
+		r.Tally(fmt.Sprintf("two_px_symbols_with_quiet_zone_%d", azQuiet))
 		for rot := 0; rot < 4; rot++ {
 			if a.readImage(r, a.sym.Matrix, nil, 2, rot) == azReadViolation {
+				azQuiet = 4
 				return
 			}
 			r.NontrivialH(h ^ uint64(rot))
 		}
+		azQuiet = 4
 	}
 }
 
